@@ -89,12 +89,14 @@ func (m *Machine) pbCopy(st *types.Struct, src []value, aliasOf *Object, count *
 		cells := src[off : off+n]
 		dst := out[off : off+n]
 		off += n
-		if strings.HasPrefix(f.Name(), "XXX_") {
+		if strings.HasPrefix(f.Name(), "XXX_") && f.Name() != "XXX_unrecognized" {
 			if n > 0 {
 				m.zeroCells(f.Type(), dst)
 			}
 			continue
 		}
+		// XXX_unrecognized ([]byte) is carried like a bytes field: golang/protobuf re-emits unknown
+		// fields on Marshal and keeps them on Unmarshal (0.5.10 streams carry reserved fields)
 		switch u := f.Type().Underlying().(type) {
 		case *types.Basic:
 			dst[0] = cells[0]
@@ -190,6 +192,34 @@ func (m *Machine) codecMarshal(msg Iface, record bool) (Slice, int) {
 	m.undoLog(func() { c.bodies = c.bodies[:serial] })
 	m.stubsHit["proto.Marshal(opaque injective codec, A-PB)"]++
 	return m.newByteSlice(append([]*Term(nil), bs...), "pb:body"), N
+}
+
+// codecSameWire: do two generated messages have the same proto3 normal form, i.e. (A-PB) the same
+// serialisation?  Empty slices/strings and zero scalars are absent on the wire; a nil sub-message
+// differs from an empty one.
+func (m *Machine) codecSameWire(a, b Iface) *Term {
+	form := func(msg Iface) (types.Type, Agg) {
+		pt, ok := msg.t.Underlying().(*types.Pointer)
+		if !ok {
+			abortf("vSameWire of non-pointer %s", msg.t)
+		}
+		p := msg.v.(Ptr)
+		if p.obj == nil {
+			abortf("vSameWire of nil message")
+		}
+		named, st, mobj, idx, found := m.findMessage(pt.Elem(), p.obj, p.idx)
+		if !found {
+			abortf("vSameWire: %s is not a generated message", msg.t)
+		}
+		count := 0
+		return named, m.pbCopy(st, mobj.cells[idx:idx+m.ncells(named)], nil, &count)
+	}
+	ta, fa := form(a)
+	tb2, fb := form(b)
+	if !types.Identical(ta, tb2) {
+		return m.tb.False
+	}
+	return m.deepEqualT(fa, fb, ta, 0, map[[2]*Object]bool{})
 }
 
 // codecUnmarshal implements proto.Unmarshal for generated messages.
